@@ -497,13 +497,19 @@ class World(object):
             return
         for spec in self.cfg.get('reenter', ()):
             trig, act = spec.split('>') if '>' in spec else ('ok:' + spec, spec)
-            if trig != trigger:
+            minconn = 0
+            if '@' in trig:                 # 'trigger@n': only on the n-th or a later connection of the address
+                trig, n = trig.split('@')
+                minconn = int(n)
+            if trig not in (trigger, '%s%s' % (trigger, qos if trigger.endswith(':pub') else '')):
+                continue
+            if sum(1 for c in self.conns if c.addr == addr) - 1 < minconn:
                 continue
             self.reentered = True
             self.obs.append(('reenter', trigger, act))
             c = self.conn(addr)
             if act == 'pub':
-                self.ev_pub(addr, qos or 1)
+                self.ev_pub(addr, qos if qos is not None else 1)
             elif act == 'sub':
                 self.ev_sub(addr, 'str')
             elif act == 'unsub':
